@@ -78,7 +78,14 @@ def _rebuild(rep, fi):
     pm = parent_map(fi.node)
     defs = local_defs(fi.node)
     G2, mapping_name = _names(fi)
-    rep.ob("O8.1", "R14", fi, G2 is not None, f"{G2} = type(g)()", "the canonical graph is a fresh graph of the class of the input", node=fi.node)
+    fresh = True if G2 is not None else None
+    if G2 is None:
+        # the graph that is rebuilt is the receiver of the add_node calls: built by something else than type(g)() -> violated; no rebuild visible -> not decided
+        recv = {norm(c.func.value) for c in walk_local(fi.node) if isinstance(c, ast.Call) and isinstance(c.func, ast.Attribute) and c.func.attr == "add_node"}
+        if len(recv) == 1:
+            src_ = origin(defs, ast.Name(id=recv.pop(), ctx=ast.Load()))
+            fresh = False if isinstance(src_, ast.Call) else None
+    rep.ob("O8.1", "R14", fi, fresh, f"{G2} = type(g)()", "the canonical graph is a fresh graph of the class of the input", node=fi.node)
     if G2 is None or mapping_name is None:
         return
     for meth, n_ids in (("add_node", 1), ("add_edge", 2)):
@@ -177,8 +184,14 @@ def relabel_morgan(rep):
     _mapping(rep, fi)
     _rebuild(rep, fi)
     order, key = _order_key(fi)
-    ok = isinstance(key, ast.Lambda) and isinstance(key.body, ast.Tuple) and norm(key.body.elts[-1]) == key.args.args[0].arg
-    rep.ob("O8.2", "R4", fi, ok, key if key is not None else order, "the Morgan ordering is total (node id as final tie-breaker)")
+    if order is None:
+        # the numbering step is not in this function (moved into a helper the rule cannot follow): look for the one sorted(.., key=lambda ..) over the nodes
+        cands = [c for c in walk_local(fi.node) if isinstance(c, ast.Call) and norm(c.func) == "sorted" and kwarg(c, "key") is not None
+                 and c.args and norm(c.args[0]) in ("g.nodes()", "g.nodes", "g", "labels", "labels.keys()")]
+        if len(cands) == 1:
+            order, key = cands[0], kwarg(cands[0], "key")
+    ok = None if order is None else (isinstance(key, ast.Lambda) and isinstance(key.body, ast.Tuple) and norm(key.body.elts[-1]) == key.args.args[0].arg)
+    rep.ob("O8.2", "R4", fi, ok, key if key is not None else (order if order is not None else "order"), "the Morgan ordering is total (node id as final tie-breaker)")
 
 
 def dispatch(rep, rel):
@@ -399,7 +412,8 @@ def nauty(rep):
         loops = enclosing_loops(parent_map(se.node), pls[0][0], se.node)
         cm = pmatch(f"{se.params[3]} + [$v]", csrc)
         rec = [c for c in walk_local(se.node) if isinstance(c, ast.Call) and norm(c.func) == "self._search"]
-        ok = bool(cm) and bool(loops) and norm(loops[0].target) == cm["v"] and len(rec) == 1 and len(rec[0].args) >= 3 and norm(rec[0].args[2]) == cand
+        ok = bool(cm) and bool(loops) and norm(loops[0].target) == cm["v"] and len(rec) == 1 and len(rec[0].args) >= 3 \
+            and (norm(rec[0].args[2]) == cand or norm(origin(sdefs, rec[0].args[2])) == norm(csrc))
     rep.ob("O8.4", "R16", se, ok, pls[0][0] if pls else "partial label", "the bound is computed for the branch that is about to be entered")
     # refinement cache
     rf = rep.f(NA, N + "_refine")
